@@ -209,6 +209,11 @@ func (e *Engine) verifyContract(c *Contract) (res *UnitResult) {
 	}
 	// ensures
 	names := map[string]Val{}
+	// locals of the function at exit (a local never declared on a path reads as its zero value);
+	// parameter names denote entry values and win over locals of the same name
+	for k, v := range fr.specEnv(exit).names {
+		names[k] = v
+	}
 	for k, v := range fr.specNames {
 		names[k] = v
 	}
